@@ -378,10 +378,11 @@ class Calls:
         if len(args) == 1 and self._is_copy_ctor(ex, sh, ctype):
             return self._val(ex, args[0])
         qual = sh[1]
-        cname = qual.split('::')[-1]
-        cname = re.sub(r'<.*>$', '', cname)
+        cname = re.sub(r'<.*>$', '', qual).split('::')[-1]
         cands = [f for f in ex.tu.decls.values() if f.get('kind') == 'CXXConstructorDecl'
-                 and f.get('_qual') == qual + '::' + cname and f['type']['qualType'] == ctype]
+                 and f.get('_qual') == qual + '::' + cname and not f.get('_dependent')
+                 and (f['type']['qualType'] == ctype or self.sig_equiv(ex, f['type']['qualType'], ctype))]
+        cands.sort(key=lambda f: (body_of(f) is None, f['type']['qualType'] != ctype))
         if not cands:
             if not args:
                 return self.default_construct(ex, sh, n)
@@ -403,6 +404,22 @@ class Calls:
             bound = self.bind_args(ex, d, args, n)
             self.inline(ex, d, c, obj, bound, n)
         return ex.read(obj)
+
+    def sig_equiv(self, ex, t1, t2):
+        from .values import split_targs
+        def ps(t):
+            m = re.match(r'^void \((.*)\)', t)
+            if not m:
+                return None
+            out = []
+            for a in split_targs(m.group(1)):
+                try:
+                    out.append(ex.shapes.of(a))
+                except Unsupported:
+                    out.append(('?', a))
+            return out
+        a, b = ps(t1), ps(t2)
+        return a is not None and a == b
 
     def tiny(self, d):
         """constructors whose body is empty and that only have member initialisers are inlined"""
